@@ -186,6 +186,37 @@ def run_impl(fn, *a, **k):
     return None, ""
 
 
+CONTEXTS = ["direct", "nested", "thread", "nested-output"]
+
+
+def run_in_context(kind, fn, *a, **k):
+    """The verdict of a guarded call is a function of the call alone (the model is stateless): it must be the same when the call
+    is made while another guarded function is executing -- from its body, from another thread meanwhile, or while the
+    result of another guarded function is being produced."""
+    if kind == "direct":
+        return run_impl(fn, *a, **k)
+    import threading  # pylint: disable=import-outside-toplevel
+    from symplyphysics import Quantity, validate_input, validate_output  # pylint: disable=import-outside-toplevel
+    res = {}
+
+    def body():
+        res["v"] = run_impl(fn, *a, **k)
+
+    def outer(length_):  # pylint: disable=unused-argument
+        if kind == "thread":
+            t = threading.Thread(target=body)
+            t.start()
+            t.join()
+        else:
+            body()
+        return length_
+    if kind == "nested-output":
+        outer = validate_output(units.length)(outer)
+    outer = validate_input(length_=units.length)(outer)
+    outer(Quantity(2 * units.meter))
+    return res["v"]
+
+
 # ---------------------------------------------------------------------------------------------
 # specification predicate (written from the property text, used only after a disagreement)
 # ---------------------------------------------------------------------------------------------
@@ -351,7 +382,8 @@ def stream_calls(ctx, n):
         kw_idx = list(range(npos, nparams))
         rng.shuffle(kw_idx)
         kw = {params[i]: vals[i][0] for i in kw_idx}
-        v, msg = run_impl(fn, *pos, **kw)
+        how = "direct" if rng.random() < 0.7 else rng.choice(CONTEXTS[1:])
+        v, msg = run_in_context(how, fn, *pos, **kw)
         if out_kind == "same":
             # validate_output_same: the spec is the *argument itself* (quantity / list), read as expectation
             sv = vals[same_idx]
@@ -365,7 +397,7 @@ def stream_calls(ctx, n):
         lit = (f"(({params_lit}, [{'; '.join(guards_lit)}], {out_lit}), ({pos_lit}, {kw_lit}, {ret[1]}), "
             f"{verdict_lit(v)})")
         cases.append({"lit": lit, "impl": v, "msg": msg, "kind": f"call/{out_kind}",
-            "desc": f"probe({params}) guards={list(guards)} out={out_kind} npos={npos}"})
+            "desc": f"probe({params}) guards={list(guards)} out={out_kind} npos={npos} context={how}"})
         hist[(f"call/{out_kind}", v)] = hist.get((f"call/{out_kind}", v), 0) + 1
     return cases, hist
 
@@ -397,9 +429,10 @@ def stream_history(ctx, n):
         exec("def probe(a_):\n    return None\n", ns)  # pylint: disable=exec-used
         fn = validate_input(a_=exp)(ns["probe"])
         for step, (a, alit) in enumerate(zip(seq, lits)):
-            v, msg = run_impl(fn, a)
+            how = CONTEXTS[(len(cases) + step) % len(CONTEXTS)] if rng.random() < 0.6 else "direct"
+            v, msg = run_in_context(how, fn, a)
             cases.append({"lit": f"({alit}, {elit}, {verdict_lit(v)})", "arg": a, "exp": exp, "impl": v, "msg": msg, "kind": "history",
-                "desc": f"call #{step + 1} of a sequence on one guarded function (declared {xdesc}): {a}"})
+                "desc": f"call #{step + 1} of a sequence on one guarded function (declared {xdesc}), context={how}: {a}"})
     return cases
 
 
@@ -742,7 +775,7 @@ def run(ctx):
     ctx.coverage["rule"] = ("gate1: seeded (actual, declared) pairs over the 7 base dimensions + angle with exponents in "
         "{-3..3, +-1/2, 1/3, +-3/2}, written through base and derived units/dimensions, prefixes, magnitudes incl. 0, +-oo, nan, "
         "zoo, 0.0, 1e+-30; calls: generated guarded functions (validate_input/output/output_same; scalar, list, tuple specs; "
-        "positional vs keyword); distinct = distinct Gallina literals; non-trivial = not (plain number accepted)")
+        "positional vs keyword; made directly, from the body of another guarded function, from another thread meanwhile); distinct = distinct Gallina literals; non-trivial = not (plain number accepted)")
 
 
 def replay(ctx, rep):
